@@ -247,6 +247,14 @@ def diff(got, want):
     return 'missing %r | unexpected %r' % (missing, extra)
 
 
+def zlib_pick(case, n):
+    import zlib
+    return zlib.crc32(repr([case.get('fmt'), case.get('enc'), case.get('lig'),
+                            len(case.get('bank') or []),
+                            case.get('gramtype'), case.get('mode')])
+                      .encode('utf-8')) % n
+
+
 def run_api(ctx, case, rng):
     R = ctx.R
     Cur.ctx, Cur.case = ctx, case
@@ -274,6 +282,10 @@ def run_api(ctx, case, rng):
     params = {'lex_in_grammar': True} if lig else {}
     exc = None
     before = (copy.deepcopy(grammar), copy.deepcopy(lexicon))
+    if zlib_pick(case, 4) == 1:
+        # an unrelated file has the very name of the prefix
+        common.write(prefix, 'notes on this grammar\n')
+        ctx.stratum('grammar prefix is the name of an existing file')
     for ext in ('pmcfg', 'rcg', 'lex', 'gram', 'start', 'oc', 'OC'):
         common.preexisting(ctx, prefix + '.' + ext, rng, 0.15)
     try:
@@ -406,6 +418,11 @@ def run_cli(ctx, case, rng):
     else:
         common.write(src, text, senc)
     prefix = ctx.path('.cli')
+    if not case.get('sgz') and zlib_pick(case, 4) == 0:
+        # the grammar is named after the treebank it comes from, which lies
+        # next to it: tb.export -> tb.export.rcg, tb.export.lex
+        prefix = src
+        ctx.stratum('grammar prefix is the name of an existing file')
     gramtype = case.get('gramtype', 'treebank')
     args = ['grammar', src, prefix, gramtype, '--src-format', sfmt,
             '--src-enc', senc, '--dest-format', fmt, '--dest-enc', enc,
